@@ -868,6 +868,9 @@ class Time(object):
                 nano_time_str = parts[1] + "0" * (9 - len(parts[1]))
                 self.nanosecond_time += int(nano_time_str)
 
+            # strptime's %S admits the leap seconds 60 and 61: '23:59:60' is not within the day
+            self._from_timestamp(self.nanosecond_time)
+
         except ValueError:
             raise ValueError("can't interpret %r as a time" % (s,))
 
